@@ -85,24 +85,27 @@ def coq_make(targets, timeout=1500, jobs=16):
     lk.close()
 
 
-def coq_props(prop_files, timeout=600):
-  """Re-compile each Props file on its own (dependencies must be built) and collect Print Assumptions output.
-  Returns list of dict(file, ok, log, theorems:[(name, assumptions)])."""
-  out = []
-  for f in prop_files:
-    tmpdir = os.path.join(COQ, "Cases", f"props_{os.getpid()}")
+def coq_props(prop_files, timeout=600, jobs=8):
+  """Re-compile each Props file on its own (dependencies must be built) and collect Print Assumptions output - the files of one
+  property in parallel.  Returns list of dict(file, ok, log, theorems:[(name, assumptions)])."""
+  import shutil
+  from concurrent.futures import ThreadPoolExecutor
+
+  def one(kf):
+    k, f = kf
+    tmpdir = os.path.join(COQ, "Cases", f"props_{os.getpid()}_{k}")
     os.makedirs(tmpdir, exist_ok=True)
     tmp = os.path.join(tmpdir, os.path.basename(f)[:-2] + ".vo")
     cmd = ["timeout", str(timeout), "coqc", "-Q", ".", "LV", "-w", "-notation-overridden", f, "-o", tmp]
     p = subprocess.run(cmd, cwd=COQ, stdout=subprocess.PIPE, stderr=subprocess.STDOUT, text=True)
-    import shutil
     shutil.rmtree(tmpdir, ignore_errors=True)
     src = open(os.path.join(COQ, f)).read()
     names = re.findall(r"^\s*(?:Theorem|Lemma|Corollary)\s+(\w+)", src, re.M)
     printed = re.findall(r"Print Assumptions\s+(\w+)", src)
     blocks = split_assumptions(p.stdout)
-    out.append(dict(file=f, ok=p.returncode == 0, log=p.stdout[-4000:], theorems=names, printed=printed, assumptions=blocks))
-  return out
+    return dict(file=f, ok=p.returncode == 0, log=p.stdout[-4000:], theorems=names, printed=printed, assumptions=blocks)
+  with ThreadPoolExecutor(max_workers=max(1, min(jobs, len(prop_files) or 1))) as ex:
+    return list(ex.map(one, enumerate(prop_files)))
 
 
 def split_assumptions(log):
